@@ -34,6 +34,18 @@ func c05Schema(soft bool) *j.Schema {
 		return s
 	}
 	s := BuildSchema([]TypeD{c05TypeD(), {Name: "u", Attrs: []AttrD{{"b", kBool}}}}, []bool{soft, !soft})
+	// a struct-backed type whose json tags carry options (legal for encoding/json; the
+	// library takes the whole tag as the field name)
+	opts := reflect.StructOf([]reflect.StructField{
+		{Name: "ID", Type: reflect.TypeOf(""), Tag: `json:"id" api:"opts"`},
+		{Name: "Name", Type: reflect.TypeOf(""), Tag: `json:"name,omitempty" api:"attr"`},
+		{Name: "Count", Type: reflect.TypeOf((*int)(nil)), Tag: `json:"count,string" api:"attr"`},
+		{Name: "Owner", Type: reflect.TypeOf(""), Tag: `json:"owner,omitempty" api:"rel,u"`},
+		{Name: "Tags", Type: reflect.TypeOf([]string{}), Tag: `json:"tags,omitempty" api:"rel,u"`},
+	})
+	if t, err := j.BuildType(reflect.New(opts).Interface()); err == nil {
+		_ = s.AddType(t)
+	}
 	c05Schemas[soft] = s
 	return s
 }
@@ -512,6 +524,9 @@ func c05Misc(x *mc.Exec) {
 			`{"type":"t","id":"x","attributes":{"a13":"!!!"}}`, `{"type":"t","id":"x","attributes":{"a13":"AQI"}}`, `{"type":"t","id":"x","attributes":{"a27":"====="}}`, `{"type":"t","id":"x","attributes":{"a13":[1,2,300]}}`, `{"type":"t","id":"x","attributes":{"a13":[1,-2]}}`,
 			`{"type":"t","id":"x","attributes":{"a12":"2020-01-02"}}`, `{"type":"t","id":"x","attributes":{"a01":1e400}}`, `{"type":"t","id":"x","attributes":{"a01":99999999999999999999999}}`,
 			`{"type":"t","id":"x","attributes":{"a00":"\ud800"}}`, `{"type":"t","id":"x","attributes":{"a00":"` + "\xff" + `"}}`,
+			`{"type":"opts","id":"x"}`, `{"data":{"type":"opts","id":"x","attributes":{"name,omitempty":"n","count,string":3}}}`, `{"type":"opts","id":"x","attributes":{"name":"n"}}`,
+			`{"type":"opts","id":"x","relationships":{"owner,omitempty":{"data":{"type":"u","id":"1"}},"tags,omitempty":{"data":[{"type":"u","id":"1"}]}}}`,
+			`{"data":[{"type":"opts","id":"x","relationships":{"tags,omitempty":{"data":null}}}]}`, `{"type":"opts","id":"x","relationships":{"tags":{"data":[]}}}`,
 			`{"type":"t","id":"x","meta":5}`, `{"type":"t","id":"x","meta":null}`, `{"type":"t","id":"x","meta":[]}`, `{"type":"t","id":7}`, `{"type":7,"id":"x"}`, `{"type":null,"id":null}`,
 		}
 		i := x.Choose(len(raws), "raw")
@@ -646,7 +661,7 @@ func init() {
 	_ = sort.Strings
 	Register(&Prop{
 		ID: "C05",
-		Rule: "Engine A, all choices Full. Four generators, each exhaustive within its bound, against a soft and a struct-backed schema holding all 28 kinds and 9 entry points (UnmarshalDocument/Resource/PartialResource/Collection/Identifier/Identifiers, NewRequest with POST/PATCH/GET): (a) ALL byte strings of length <= 4 (thorough 6) over the 13-symbol alphabet { } [ ] \" : , \\ n 1 a space 0xFF; (b) every truncation point of 8 valid base payloads; (c) in every base payload every value position replaced by each of 16 deviations (wrong JSON kinds, nested values, huge number, unknown type, deletion, an 80-byte string of 40 multi-byte runes, a 300-byte string): all single replacements, all double replacements for the resource/identifiers bases (all bases in thorough); (d) nesting ladder 1..20000 at 5 positions; plus ~90 hand-written payloads (duplicate keys, included:[null], unknown/missing types, non-canonical values) and the full 28 kinds x 16 JSON values matrix. plus every history of 4 (thorough 5) AddType/RemoveType/lookup steps over three type names followed by unmarshaling an identifier and a resource of each name. Oracle: no panic; exactly one of (result, error); every returned resource's type is in the schema, every attribute holds exactly the declared Go type (or nil for nullable), to-one string, to-many []string. Non-trivial = a payload accepted by some entry point, or a deviating/hand-written payload",
+		Rule: "Engine A, all choices Full. Four generators, each exhaustive within its bound, against a soft and a struct-backed schema holding all 28 kinds and 9 entry points (UnmarshalDocument/Resource/PartialResource/Collection/Identifier/Identifiers, NewRequest with POST/PATCH/GET): (a) ALL byte strings of length <= 4 (thorough 6) over the 13-symbol alphabet { } [ ] \" : , \\ n 1 a space 0xFF; (b) every truncation point of 8 valid base payloads; (c) in every base payload every value position replaced by each of 16 deviations (wrong JSON kinds, nested values, huge number, unknown type, deletion, an 80-byte string of 40 multi-byte runes, a 300-byte string): all single replacements, all double replacements for the resource/identifiers bases (all bases in thorough); (d) nesting ladder 1..20000 at 5 positions; plus ~100 hand-written payloads (a struct type whose json tags carry options, duplicate keys, included:[null], unknown/missing types, non-canonical values) and the full 28 kinds x 16 JSON values matrix. plus every history of 4 (thorough 5) AddType/RemoveType/lookup steps over three type names followed by unmarshaling an identifier and a resource of each name. Oracle: no panic; exactly one of (result, error); every returned resource's type is in the schema, every attribute holds exactly the declared Go type (or nil for nullable), to-one string, to-many []string. Non-trivial = a payload accepted by some entry point, or a deviating/hand-written payload",
 		Harnesses: []Harness{
 			{Name: "C05/bytes", Body: c05Bytes, ShardDepth: 2},
 			{Name: "C05/deviations", Body: c05Deviations},
